@@ -185,6 +185,18 @@ func runCheck(repo, prop, tier string, keep bool, only string, noEvidence bool) 
 		}
 		results = append(results, verifyLemma(w, lm))
 	}
+	for _, rp := range w.contracts.Replacers {
+		if !hasProp(rp.Props, prop) || (only != "" && !strings.Contains(rp.Global, only)) {
+			continue
+		}
+		lm, err := replacerLemma(w, rp)
+		if err != nil {
+			results = append(results, &FuncResult{Name: "lemma replacer " + rp.Global, Err: "out of subset: " + err.Error()})
+			continue
+		}
+		w.contracts.Lemmas = append(w.contracts.Lemmas, lm)
+		results = append(results, verifyLemma(w, lm))
+	}
 	encSecs := time.Since(t0).Seconds() - loadSecs
 	// keep only obligations of this property
 	for _, fr := range results {
